@@ -119,6 +119,7 @@ def pdec (t : String) : String :=
 def handle (args : List String) : String :=
   match args with
   | ["enc", t] => enc t
+  | ["encm", _] => "u"  -- subject arrays: implementation-side oracle only
   | ["dec", t] => dec t
   | ["penc", t] => penc t
   | ["pdec", t] => pdec t
